@@ -54,6 +54,16 @@ PROPS = {
         "quick": {"stages": [st("^TestMerge", 6000)]},
         "thorough": {"stages": [st("^TestMerge", 60000, shards=12), st("^TestMerge", 5000, shards=4, race=True)]},
     },
+    "C06": {
+        "pkg": "sqlite", "level": "exploration",
+        "quick": {"stages": [st("^TestC06", 500)]},
+        "thorough": {"stages": [st("^TestC06", 1500, shards=16, timeout=1800)]},
+    },
+    "C14": {
+        "pkg": "sqlite", "level": "fault_enumeration",
+        "quick": {"stages": [st("^TestC14Fault", 150), st("^TestC14Reopen", 60)]},
+        "thorough": {"stages": [st("^TestC14Fault", 800, shards=10, timeout=1800), st("^TestC14Reopen", 300, shards=6, timeout=1800)]},
+    },
     "C10": {
         "pkg": "core", "level": "exploration",
         "quick": {"stages": [st("^TestC10", 15000)]},
